@@ -1143,6 +1143,13 @@ _nodetest_map = {'comment': CommentNodeTest, 'node': NodeTest,
 class Function(object):
     """Base class for function nodes in XPath expressions."""
 
+def _integral(func, number):
+    """Apply a rounding function to an XPath number; the result is an XPath
+    number again (a float), NaN and the infinities are returned unchanged."""
+    if number != number or number in (float('inf'), float('-inf')):
+        return number
+    return float(func(number))
+
 class BooleanFunction(Function):
     """The `boolean` function, which converts its argument to a boolean
     value.
@@ -1166,7 +1173,7 @@ class CeilingFunction(Function):
         self.number = number
     def __call__(self, kind, data, pos, namespaces, variables):
         number = self.number(kind, data, pos, namespaces, variables)
-        return ceil(as_float(number))
+        return _integral(ceil, as_float(number))
     def __repr__(self):
         return 'ceiling(%r)' % self.number
 
@@ -1239,7 +1246,7 @@ class FloorFunction(Function):
         self.number = number
     def __call__(self, kind, data, pos, namespaces, variables):
         number = self.number(kind, data, pos, namespaces, variables)
-        return floor(as_float(number))
+        return _integral(floor, as_float(number))
     def __repr__(self):
         return 'floor(%r)' % self.number
 
@@ -1323,7 +1330,7 @@ class RoundFunction(Function):
         self.number = number
     def __call__(self, kind, data, pos, namespaces, variables):
         number = self.number(kind, data, pos, namespaces, variables)
-        return round(as_float(number))
+        return _integral(round, as_float(number))
     def __repr__(self):
         return 'round(%r)' % self.number
 
@@ -1351,7 +1358,7 @@ class StringLengthFunction(Function):
         self.expr = expr
     def __call__(self, kind, data, pos, namespaces, variables):
         string = self.expr(kind, data, pos, namespaces, variables)
-        return len(as_string(string))
+        return float(len(as_string(string)))
     def __repr__(self):
         return 'string-length(%r)' % self.expr
 
